@@ -90,8 +90,12 @@ package bytes
 //@   ensures result1 != nil ==> !libErr(result1)
 //@   ensures result1 == nil ==> len(b) > 0 && (forall k :: 0 <= k && k < len(b) ==> isDigit(b[k]))
 //@   ensures (len(b) == 0 || (exists k :: 0 <= k && k < len(b) && !isDigit(b[k]))) ==> result1 != nil
-//@   ensures (len(b) > 0 && (forall k :: 0 <= k && k < len(b) ==> isDigit(b[k]))) ==> result1 == nil
+//@   ensures (len(b) > 0 && (forall k :: 0 <= k && k < len(b) ==> isDigit(b[k])) && decVal(b, len(b)) <= 18446744073709551615) ==> result1 == nil
+//@   ensures result1 == nil ==> result0 == decVal(b, len(b))
+//@   uses lemma decValA_nonneg
+//@   uses lemma decValA_mono
 //@   loop 0 invariant rangeindex < len(b) && (forall k :: 0 <= k && k <= rangeindex ==> isDigit(b[k]))
+//@   loop 0 invariant u == decVal(b, rangeindex + 1)
 //@   loop 0 decreases len(b) - rangeindex
 
 //@ func (Bytes).ParseInt()
